@@ -197,12 +197,13 @@ def Op.run : Op → Grid → Grid
   | .addGridGenerator x, g => (GO.addGridGenerator g x).g
 
 /-- admissible arguments: what the C++ interface requires (dimension compatibility, well-formed rows, the trivial
-    flags of a constraint are truthful) and, for `add_constraint(s)` / `add_grid_generator`, that the call does not throw -/
+    flags of a constraint are truthful) and, for `add_constraint(s)` / `add_grid_generator`, that the call is not rejected
+    (rejected calls: `add_constraint_rejected_unchanged`, `add_constraints_rejected_unchanged` below) -/
 def Op.pre : Op → Grid → Prop
   | .addCongruence cg, g => cg.spaceDim ≤ g.spaceDim ∧ 0 ≤ cg.m ∧ cg.e ≠ []
   | .addCongruences cgs, g => cgs.dim ≤ g.spaceDim ∧ CWf cgs.dim cgs.rows
   | .addRecycledCongruences cgs, g => cgs.dim ≤ g.spaceDim ∧ CWf cgs.dim cgs.rows
-  | .addConstraint c, g => cn_ConOK g.spaceDim g.sem c ∧ (g.st.empty = false → cn_hardIneq c = false)
+  | .addConstraint c, g => cn_ConOK g.spaceDim g.sem c ∧ cn_hardIneq c = false
   | .refineWithConstraint c, g => cn_ConOK g.spaceDim g.sem c ∧ (cn_eff c = true ∨ c.tautological = true)
   | .addConstraints d cs, g => d ≤ g.spaceDim ∧ (∀ c ∈ cs, cn_ConOK g.spaceDim g.sem c) ∧ ∀ c ∈ cs, cn_hardIneq c = false
   | .refineWithConstraints d cs, g => d ≤ g.spaceDim ∧ (∀ c ∈ cs, cn_ConOK g.spaceDim g.sem c) ∧
@@ -308,9 +309,9 @@ theorem op_step (op : Op) (g : Grid) (hI : GridInv g) (hp : op.pre g) :
     have hnt : (addConstraint g c).thrown = false := by
       cases h : (addConstraint g c).thrown
       · rfl
-      · rcases h1.mp h with hlt | ⟨he, hhard⟩
+      · rcases h1.mp h with hlt | hhard
         · exact absurd hok.1 (by omega)
-        · rw [hh he] at hhard; cases hhard
+        · rw [hh] at hhard; cases hhard
     exact ⟨h4, h6 hnt, h5⟩
   | refineWithConstraint c =>
     obtain ⟨hok, heff⟩ := hp
@@ -322,8 +323,14 @@ theorem op_step (op : Op) (g : Grid) (hI : GridInv g) (hp : op.pre g) :
     exact ⟨h4, h6 hnt heff, h5⟩
   | addConstraints d cs =>
     obtain ⟨hd, hok, hh⟩ := hp
-    obtain ⟨_, _, h3, h4, h5, _, h7⟩ := cn_addConstraints hUC g d cs hI (fun _ => hok)
-    exact ⟨h3, h5 (h7 hd hh), h4⟩
+    obtain ⟨h1, _, _, h3, h4, h5⟩ := cn_addConstraints hUC g d cs hI (fun _ => hok)
+    have hnt : (addConstraints g d cs).thrown = false := by
+      cases h : (addConstraints g d cs).thrown
+      · rfl
+      · rcases h1.mp h with hlt | ⟨c, hc, hhard⟩
+        · omega
+        · rw [hh c hc] at hhard; cases hhard
+    exact ⟨h3, h5 hnt, h4⟩
   | refineWithConstraints d cs =>
     obtain ⟨hd, hok, ht⟩ := hp
     obtain ⟨h1, _, h3, h4, h5⟩ := cn_refineWithConstraints hUC g d cs hI (fun _ => hok)
@@ -447,6 +454,67 @@ example : HistPre ([Op.addCongruence ⟨[1, 3], 6⟩, Op.gridGenerators, Op.unco
   refine ⟨⟨by decide, by decide, by decide⟩, trivial, ?_, trivial⟩
   show 0 < (Op.run Op.gridGenerators (Op.run (Op.addCongruence ⟨[1, 3], 6⟩) cn_exGrid)).spaceDim
   decide +kernel
+
+/-! ## rejected calls leave the object unchanged -/
+
+/-- **`add_constraints_rejected_unchanged`** (`add_constraints` / `add_recycled_constraints`, Grid_public.cc:1266 after
+    7218b6b): the call is rejected exactly on a dimension mismatch or when the system holds a non-trivial inequality — also
+    on a marked-empty receiver — and then the object is unchanged (the whole system is validated before anything is added).
+    `_before_fix` remark: before 7218b6b the constraints preceding the non-trivial inequality had been applied when the
+    exception was thrown (the object was cut by that prefix: `cn_addConstraintsLoop` still describes that loop), and a
+    marked-empty receiver did not throw. -/
+theorem add_constraints_rejected_unchanged (g : Grid) (csDim : Nat) (cs : List Con) :
+    ((addConstraints g csDim cs).thrown = true ↔ (g.spaceDim < csDim ∨ ∃ c ∈ cs, c.isHardInequality = true)) ∧
+    ((addConstraints g csDim cs).thrown = true → (addConstraints g csDim cs).g = g) := by
+  refine ⟨?_, cn_addConstraints_rejected_unchanged g csDim cs⟩
+  unfold addConstraints
+  by_cases hd : g.spaceDim < csDim
+  · rw [if_pos hd]; exact ⟨fun _ => Or.inl hd, fun _ => rfl⟩
+  · rw [if_neg hd]
+    by_cases hh : cs.any Con.isHardInequality = true
+    · rw [if_pos hh]
+      exact ⟨fun _ => Or.inr (by simpa [List.any_eq_true] using hh), fun _ => rfl⟩
+    · rw [if_neg hh]
+      have hno : ∀ c ∈ cs, cn_hardIneq c = false := by
+        intro c hc
+        cases hcc : cn_hardIneq c
+        · rfl
+        · exact absurd (List.any_eq_true.mpr ⟨c, hc, by rw [← cn_hardIneq_eq]; exact hcc⟩) hh
+      have hnt : (if g.markedEmpty = true then ({ g := g } : R) else addConstraintsLoop g cs).thrown = false := by
+        split
+        · rfl
+        · exact cn_loop_not_thrown cs hno g
+      rw [hnt]
+      constructor
+      · intro h; cases h
+      · rintro (h | ⟨c, hc, hcc⟩)
+        · exact absurd h hd
+        · exact absurd (List.any_eq_true.mpr ⟨c, hc, hcc⟩) hh
+
+/-- a system with a non-trivial inequality in the middle is rejected and the congruences stay as they were -/
+example : (addConstraints cn_exGrid 1 [⟨0, false, false, [0, 1]⟩, ⟨1, false, false, [0, 1]⟩]).thrown = true ∧
+    (addConstraints cn_exGrid 1 [⟨0, false, false, [0, 1]⟩, ⟨1, false, false, [0, 1]⟩]).g = cn_exGrid := by decide
+
+/-- `add_constraint(c)` (Grid_inlines.hh after 680f35a): rejected exactly on a dimension mismatch or a non-trivial
+    inequality — also by a marked-empty receiver — and then nothing changes -/
+theorem add_constraint_rejected_unchanged (g : Grid) (c : Con) (hI : GridInv g)
+    (hc : c.spaceDim ≤ g.spaceDim → cn_ConOK g.spaceDim g.sem c) :
+    ((addConstraint g c).thrown = true ↔ (g.spaceDim < c.spaceDim ∨ c.isHardInequality = true)) ∧
+    ((addConstraint g c).thrown = true → (addConstraint g c).g = g) := by
+  obtain ⟨a, b, _⟩ := cn_addConstraint updateCongruences_spec g c hI hc
+  rw [cn_hardIneq_eq] at a
+  exact ⟨a, b⟩
+
+/-- `generalized_affine_image(var, relsym, expr, d, m)` (after a13dde6): the argument checks — `d = 0`, dimensions,
+    `NOT_EQUAL`, a non-zero modulus with a relation symbol other than `EQUAL` — reject the call for EVERY receiver, marked
+    empty or not, and a rejected call changes nothing -/
+theorem generalized_affine_image_var_rejects (g : Grid) (hI : GridInv g) (v : Nat) (relsym : Nat) (e : LinExpr)
+    (den modulus : Int) :
+    ((generalizedAffineImageVar g v relsym e den modulus).thrown = true ↔
+      (den = 0 ∨ g.spaceDim < e.spaceDim ∨ g.spaceDim < v + 1 ∨ relsym = NOT_EQUAL ∨ (relsym ≠ EQUAL ∧ modulus ≠ 0))) ∧
+    ((generalizedAffineImageVar g v relsym e den modulus).thrown = true →
+      (generalizedAffineImageVar g v relsym e den modulus).g = g) :=
+  ⟨(generalizedAffineImageVar_thrown g hI v relsym e den modulus).1, (generalizedAffineImageVar_thrown g hI v relsym e den modulus).2.1⟩
 
 /-! ## the references are the K2 operators (`Props/C05.lean`) -/
 
